@@ -155,7 +155,7 @@ PROPS = {
         "level_note": "Trusted: Coq kernel, extraction, rig and hooks. Modelled, not verified: client/client.go.",
     },
     "C06": {
-        "rule": "exhaustive victim/aggressor enumeration (victim first or later x aggressor in {cancelled before registration, after "
+        "rule": "(the scripted transport honours write deadlines; Go calls with an already expired context deadline and cancellation before registration are among the aggressors) exhaustive victim/aggressor enumeration (victim first or later x aggressor in {cancelled before registration, after "
                 "registration, after write, unencodable argument, mistyped reply, one-way, service error, unknown codec, write failure} x 3 "
                 "relative orders) plus 350 (thorough 8000) random schedules with 2-3 calls; distinct = distinct model-input line; "
                 "non-trivial = at least 2 calls",
@@ -178,21 +178,27 @@ PROPS = {
         "rule": "exhaustive per-attempt outcome sequences {ok, service error, connection lost, context cancelled, deadline exceeded} up to "
                 "the retry bound for modes {fail-fast, fail-try, fail-over} x retries 0..2 x 1..3 servers (quick: every third), plus "
                 "160 (thorough 4000) random scripts with refused dials, 0..4 servers, retries 0..3, arbitrary round-robin cursor; every "
-                "script is run through XClient.Call AND XClient.SendRaw against scripted servers; distinct = distinct model-input line; "
-                "non-trivial = at least 2 attempts or 2 servers",
-        "theorems": ["C10_call_contract", "C10_failover_reselects_differently"],
+                "script is run through XClient.Call AND XClient.SendRaw against scripted servers; fail-backup: 2 servers x dial scripts "
+                "{accept, refuse once, refuse twice}^2 x outcome pairs {ok, service error, lost}^2 x {first request answered within the "
+                "backup latency or not} x {which of the two requests in flight completes first} x both cursors (quick: 30 %), plus 40 "
+                "(thorough 1500) random 2-3 server scripts, the schedule forced through servers that report dials and arrivals and hold "
+                "their answers; distinct = distinct model-input line; non-trivial = at least 2 attempts or 2 servers",
+        "theorems": ["C10_call_contract", "C10_failover_reselects_differently", "C10_backup_contract", "C10_backup_second_only_after_latency"],
         "assumptions": ["the environment (what each dial and each attempt does) is a universally quantified per-server script",
                         "the selector is round-robin (a deterministic client.SelectByUser selector in the harness)",
-                        "fail-backup is timing-dependent and is exercised by the harness only (not modelled): see DESIGN.md",
+                        "fail-backup: the two timing choices (answered within the latency; which request completes first) are script "
+                        "booleans; context cancellation during a fail-backup call is not modelled",
                         "RetryInterval = 0; plugins and breakers absent"],
         "trusted": ["client.ConnFactories[\"vsrv\"] scripted servers (harness/cmd/vh/fakesrv.go)"],
         "level_text": "Theorem for every mode, retry count, server count and per-server script: the requests a call delivers number at "
                       "most retries+1 (one for fail-fast), success is returned exactly when the attempt the call ends with succeeded and "
                       "with its reply, a service error / cancelled context / deadline is the last attempt, fail-try stays on one server, "
                       "and the next round-robin selection differs when more than one server exists. The model mirrors the err/e variables "
-                      "of the Go loops and is compared with XClient.Call and XClient.SendRaw on every script.",
-        "level_note": "Trusted: Coq kernel, extraction, scripted-server harness. Modelled, not verified: xClient.Call, xClient.SendRaw, "
-                      "selectClient/getCachedClient/removeClient. Fail-backup: exercised, not modelled.",
+                      "of the Go loops and is compared with XClient.Call and XClient.SendRaw on every script. Fail-backup (own model): at "
+                      "most two requests, the second only after the latency passed unanswered, success only for a delivered request that "
+                      "was answered successfully and with its reply, an error when nothing could be delivered.",
+        "level_note": "Trusted: Coq kernel, extraction, scripted-server harness. Modelled, not verified: xClient.Call (all four fail "
+                      "modes), xClient.SendRaw, xClient.Go, selectClient/getCachedClient/removeClient.",
     },
     "C17": {
         "rule": "exhaustive outcome vectors over {ok, service error, connection lost, slow} for 1..3 (thorough 1..4) scripted servers x "
